@@ -39,6 +39,9 @@ class UsedQubitIndicesVisitor(Visitor):
 
     def visit_BlockStatement(self, obj, context=None):
         indices = defaultdict(set)
+        if obj.subcircuit:
+            # A subcircuit block implicitly prepares and measures all qubits.
+            self.merge_into(indices, self.all_qubits)
         if self.validate_parallel and obj.parallel:
             for n, sub_obj in self.trace_statements(obj.statements):
                 self.merge_into(
